@@ -112,3 +112,8 @@ PROPS["C13"] = {"units": [
     rapid_unit("router-addresses", "vnete2e", "^TestC13RouterAddresses$", 1500, 16 * 20000, overlay="plain"),
     rapid_unit("host-binds", "vnete2e", "^TestC13HostBinds$", 3000, 16 * 40000, overlay="plain"),
 ]}
+
+PROPS["C17"] = {"units": [
+    plain_unit("regress", "ctxio", "^TestRegressC17", overlay="full"),
+    rapid_unit("schedules", "ctxio", "^TestC17Schedules$", 1200, 16 * 10000, overlay="full"),
+]}
